@@ -4,9 +4,6 @@ import ALV.Spec.C20
 namespace ALV.Driver.C20
 open ALV ALV.J ALV.C20
 
-/-- floor of a rational, as a rational (Python `//` on Fractions) -/
-def flRat (r : Rat) : Rat := (r.floor : Rat)
-
 def optRat (j : Json) (k : String) : Except String (Option Rat) :=
   match optField j k with
   | none => pure none
@@ -28,19 +25,19 @@ def handle (entry : String) (j : Json) : Except String Json := do
     let zero ← getRat (fieldD j "zero" (Json.int 0))
     let xs ← getList getRat (← field j "xs")
     pure <| Json.mkObj [
-      ("deque", rats (maverageDeque size zero xs)),
-      ("recursive", rats (maverageRecursive size zero xs)),
-      ("fir", rats (maverageFir size zero xs)),
-      ("spec", rats (mavgSpec size zero xs)),
-      ("closed", rats (mavgClosed size zero xs))]
+      ("deque", rats (R.maverageDeque size zero xs)),
+      ("recursive", rats (R.maverageRecursive size zero xs)),
+      ("fir", rats (R.maverageFir size zero xs)),
+      ("spec", rats (R.mavgSpec size zero xs)),
+      ("closed", rats (R.mavgClosed size zero xs))]
   | "accumulate" =>
     let zero ← getRat (fieldD j "zero" (Json.int 0))
     let xs ← getList getRat (← field j "xs")
     pure <| Json.mkObj [
-      ("func", rats (accumulateFunc xs)),
-      ("it", rats (accumulateIt xs)),
-      ("z", rats (accumulateZ zero xs)),
-      ("spec", rats (accSpec xs))]
+      ("func", rats (R.accumulateFunc xs)),
+      ("it", rats (R.accumulateIt xs)),
+      ("z", rats (R.accumulateZ zero xs)),
+      ("spec", rats (R.accSpec xs))]
   | "amdf" =>
     let lag ← getNat (← field j "lag")
     let size ← getNat (← field j "size")
@@ -48,22 +45,22 @@ def handle (entry : String) (j : Json) : Except String Json := do
     let zero ← getRat (fieldD j "zero" (Json.int 0))
     let xs ← getList getRat (← field j "xs")
     pure <| Json.mkObj [
-      ("model", rats (amdf lag size zero xs)),
-      ("spec", rats (amdfSpec lag size zero xs))]
+      ("model", rats (R.amdf lag size zero xs)),
+      ("spec", rats (R.amdfSpec lag size zero xs))]
   | "envelope" =>
     let b ← getList getRat (← field j "b")
     let a ← getList getRat (← field j "a")
     let xs ← getList getRat (← field j "xs")
     pure <| Json.mkObj [
-      ("abs", rats (envelopeAbs b a xs)),
-      ("squared", rats (envelopeSquared b a xs))]
+      ("abs", rats (R.envelopeAbs b a xs)),
+      ("squared", rats (R.envelopeSquared b a xs))]
   | "clip" =>
     let low ← optRat j "low"
     let high ← optRat j "high"
     let xs ← getList getRat (← field j "xs")
-    let m := clip low high xs
+    let m := R.clip low high xs
     let twice := match m with
-      | .ok ys => clip low high ys
+      | .ok ys => R.clip low high ys
       | .error e => .error e
     let bounded : Bool := match m with
       | .ok ys => ys.all fun y =>
@@ -72,7 +69,7 @@ def handle (entry : String) (j : Json) : Except String Json := do
       | .error _ => true
     pure <| Json.mkObj [
       ("model", exceptJson m),
-      ("spec", exceptJson (clipSpec low high xs)),
+      ("spec", exceptJson (R.clipSpec low high xs)),
       ("twice", exceptJson twice),
       ("bounded", Json.bool bounded)]
   | "zcross" =>
@@ -80,22 +77,32 @@ def handle (entry : String) (j : Json) : Except String Json := do
     let fs ← getRat (fieldD j "first_sign" (Json.int 0))
     let xs ← getList getRat (← field j "xs")
     pure <| Json.mkObj [
-      ("model", nats (zcross h fs xs)),
-      ("spec", nats (zcrossSpec h fs xs))]
+      ("model", nats (R.zcross h fs xs)),
+      ("spec", nats (R.zcrossSpec h fs xs))]
   | "unwrap" =>
     let md ← getRat (← field j "max_delta")
     let step ← getRat (← field j "step")
     if step = 0 then throw "step must be non-zero"
     let xs ← getList getRat (← field j "xs")
-    let m := unwrap flRat md step xs
+    let m := R.unwrap md step xs
     let multiple := (List.zipWith (fun y x => isMultiple step (y - x)) m xs).all id
     let bound := if md < step / 2 then step / 2 else md
     let adj := (List.zipWith (fun y0 y1 => !(decide (bound < absG (y1 - y0)))) m (m.drop 1)).all id
     pure <| Json.mkObj [
       ("model", rats m),
-      ("spec", rats (unwrapSpec flRat md step xs)),
+      ("spec", rats (R.unwrapSpec md step xs)),
       ("multiple", Json.bool multiple),
       ("adjacent", Json.bool adj)]
+  | "coeffs" =>
+    -- the coefficient lists the filter-built strategies are modelled with (structural tie)
+    let size ← getNat (← field j "size")
+    let lag ← getNat (← field j "lag")
+    if size = 0 then throw "size must be positive"
+    pure <| Json.mkObj [
+      ("recursive_b", rats (recursiveNum size : List Rat)), ("recursive_a", rats [-1]),
+      ("fir_b", rats (List.replicate size (sizeInv size) : List Rat)), ("fir_a", rats []),
+      ("lag_b", rats (lagNum lag : List Rat)), ("lag_a", rats []),
+      ("acc_b", rats [1]), ("acc_a", rats [-1])]
   | _ => throw s!"C20: unknown entry {entry}"
 
 end ALV.Driver.C20
